@@ -11,7 +11,7 @@ from .xlref.values import outcome_matches
 
 def judge_book(ctx, prop, spec, targets, valuations, *, exact=False, err_exact=False, classify=None, nontrivial=None,
                name='wb', monitor='reference-model', strict_text=False, runtime_monitor=True, now=None, per_cell=False,
-               case_extra=None, on_result=None, empty_text_is_blank=False):
+               case_extra=None, on_result=None, empty_text_is_blank=False, same_executor=True):
     """targets: [(sheet_idx, addr)] formula cells to judge; valuations: list of [(sheet_idx, addr, value)] override lists.
     classify(case, out, outs) -> known-finding tag | None ; nontrivial(case, outs) -> bool"""
     r = ctx.r
@@ -24,9 +24,33 @@ def judge_book(ctx, prop, spec, targets, valuations, *, exact=False, err_exact=F
         RuntimeMonitor(r).install(book.cls)
     titles = book.titles
     sheets = book.sheets()
+    import random as _random
+    order_rng = _random.Random(len(valuations) * 7919 + len(targets))
     for vi, val in enumerate(valuations):
         ov = {(titles[s], *rc(a)): v for (s, a, v) in val}
         env_ = evalr.Env(spec, ov, now=now)
+        # Every second valuation all targets are evaluated on ONE Executor (one instance of the generated class) in a shuffled
+        # order, the others on a fresh Executor per target: state carried in the instance or the class between evaluations
+        # (memo keyed by ==, cache that forgets a parameter) then shows as a disagreement with the reference.
+        shared = None
+        if same_executor and book.cls is not None and vi % 2 == 1 and len(targets) > 1:
+            order = list(targets)
+            order_rng.shuffle(order)
+            by_sheet = {}
+            for (si, addr) in order:
+                by_sheet.setdefault(si, []).append(addr)
+            shared = {}
+            try:
+                ex = pipeline.Executor().set_executed_class(class_object=book.cls)
+                if val:
+                    ex.set_cells([pipeline.ncell(s, *rc(a), v) for (s, a, v) in val])
+                for (si, addr) in order:
+                    shared[(si, addr)] = pipeline.guarded(lambda si=si, addr=addr: ex.get_cell(pipeline.ncell(si, *rc(addr))).value, 'evaluate')
+                r.count('valuations_on_one_executor')
+            except (KeyboardInterrupt, SystemExit):
+                raise
+            except BaseException:  # noqa: B902 - set_cells itself failed: fall back to the per-target path
+                shared = None
         for (si, addr) in targets:
             formula = sheets[si]['cells'].get(addr)
             try:
@@ -37,7 +61,7 @@ def judge_book(ctx, prop, spec, targets, valuations, *, exact=False, err_exact=F
                 continue
             for fl in flags:
                 r.count('silent_clause:' + fl)
-            out = book.value(si, addr, val)
+            out = shared[(si, addr)] if shared is not None else book.value(si, addr, val)
             r.ev()
             case = {'formula': formula, 'cell': addr, 'sheet': si, 'overrides': val}
             if case_extra:
